@@ -181,8 +181,16 @@ fn strs(v: Vec<String>) -> PrimitiveValue {
     PrimitiveValue::Strs(v.into_iter().collect::<C<String>>())
 }
 
-/// a value valid for `vr` (never a sequence)
+/// a value valid for `vr` (never a sequence); a single string is as often a `Str` as a one-element `Strs`
 pub fn gen_value(r: &mut Rng, vr: VR) -> PrimitiveValue {
+    let v = gen_value0(r, vr);
+    match v {
+        PrimitiveValue::Strs(ref s) if s.len() == 1 && r.chance(1, 2) => PrimitiveValue::Str(s[0].clone()),
+        v => v,
+    }
+}
+
+fn gen_value0(r: &mut Rng, vr: VR) -> PrimitiveValue {
     if r.chance(1, 12) {
         return if r.chance(1, 2) { PrimitiveValue::Empty } else { empty_of(vr) };
     }
